@@ -45,6 +45,8 @@ pub fn key_of(r: &ARecord) -> Key {
 #[derive(Default)]
 pub struct Model {
     pub recs: Vec<(Key, Kind)>,
+    /// the (TTL, cache-flush) values each key was added with since it last was certainly absent
+    variants: Vec<(Key, Vec<(u32, bool)>)>,
 }
 
 impl Model {
@@ -54,13 +56,32 @@ impl Model {
             Op::AddCached(r) => self.add(r, Kind::Cached),
             Op::Remove(r) => {
                 let k = key_of(r);
-                self.recs.retain(|(x, _)| *x != k);
+                // Removing a record certainly removes what was added with the very same TTL and cache-flush bit. The
+                // statement does not say whether a record that differs from the argument in those two members is
+                // "the same record" for removal: it may then stay or go (answered or not, both accepted).
+                let same_members = self.variants.iter().find(|(x, _)| *x == k).map(|(_, v)| v.iter().all(|m| *m == (r.ttl, r.cache_flush))).unwrap_or(true);
+                if same_members {
+                    self.recs.retain(|(x, _)| *x != k);
+                    self.variants.retain(|(x, _)| *x != k);
+                } else if let Some(e) = self.recs.iter_mut().find(|(x, _)| *x == k) {
+                    // (a record that was only learned from the network stays "not to be answered" either way)
+                    if e.1 == Kind::Auth {
+                        e.1 = Kind::Ambiguous;
+                    }
+                }
             }
-            Op::Clear => self.recs.clear(),
+            Op::Clear => {
+                self.recs.clear();
+                self.variants.clear();
+            }
         }
     }
     fn add(&mut self, r: &ARecord, kind: Kind) {
         let k = key_of(r);
+        match self.variants.iter_mut().find(|(x, _)| *x == k) {
+            Some((_, v)) => v.push((r.ttl, r.cache_flush)),
+            None => self.variants.push((k.clone(), vec![(r.ttl, r.cache_flush)])),
+        }
         if let Some(e) = self.recs.iter_mut().find(|(x, _)| *x == k) {
             // registering locally makes (or keeps) the record authoritative; receiving an equal record from
             // the network never demotes a locally registered one (C20: "disappear only when removed or cleared")
